@@ -289,7 +289,8 @@ pub fn run(args: &[&str]) -> String {
 }
 
 const ALPHA: &[&str] = &[
-  "%", ":", "/", "?", "#", ".", "-", "_", "~", "+", "0", "9", "a", "f", "z", "A", "F", " ", "\t", "\n", "\x7f", "é", "😀", "\0",
+  "%", ":", "/", "?", "#", ".", "-", "_", "~", "+", "0", "9", "a", "f", "z", "A", "F", " ", "\t", "\n", "\x7f", "é", "😀", "\0", "[", "^", "`", "{",
+  "\"", "@", "=", "&",
 ];
 
 fn all_strings(len: usize, f: &mut impl FnMut(&str)) {
@@ -422,6 +423,50 @@ pub fn gen(thorough: bool, seed: u64, out: &mut impl Write) {
     writeln!(out, "C10 did {}", hex(s.as_bytes())).unwrap();
     if valid.len() < 400 {
       valid.push(s);
+    }
+  }
+  // every ASCII character (and two non-ASCII) in every component position, through parse and setters
+  let mut chars: Vec<String> = (0u8..128).map(|b| (b as char).to_string()).collect();
+  chars.push("é".into());
+  chars.push("\u{212A}".into());
+  for c in &chars {
+    for tpl in ["did:m:a{}", "did:m:{}a", "did:m{}:a", "did:{}:a", "did:m:a/{}", "did:m:a/x{}y", "did:m:a?{}", "did:m:a?x{}y", "did:m:a#{}", "did:m:a#x{}y", "did:m:%41{}", "did:m:a/%41{}", "did:m:a?%41{}", "did:m:a#%41{}", "did:m:a%4{}", "did:m:a%{}1"] {
+      let s = tpl.replace("{}", c);
+      writeln!(out, "C10 url {}", hex(s.as_bytes())).unwrap();
+      writeln!(out, "C10 did {}", hex(s.as_bytes())).unwrap();
+    }
+    for (k, v) in [("p", format!("/a{}b", c)), ("q", format!("a{}b", c)), ("f", format!("a{}b", c)), ("p", format!("/%41{}", c)), ("q", format!("%4{}", c))] {
+      writeln!(out, "C10 set {} {} {}", hex(b"did:m:a/p?q#f"), k, hex(v.as_bytes())).unwrap();
+    }
+    writeln!(out, "C10 join {} {}", hex(b"did:m:a"), hex(format!("/a{}b?c{}d#e{}f", c, c, c).as_bytes())).unwrap();
+    writeln!(out, "C10 setdid {} n {}", hex(b"did:m:a"), hex(format!("a{}b", c).as_bytes())).unwrap();
+    writeln!(out, "C10 setdid {} i {}", hex(b"did:m:a"), hex(format!("a{}b", c).as_bytes())).unwrap();
+    writeln!(out, "C10 setdid {} i {}", hex(b"did:m:a"), hex(format!("a{}b/x?y#z", c).as_bytes())).unwrap();
+  }
+  // Eq / Ord / Hash on near pairs: values that differ in exactly one component, by percent-encoding,
+  // by hex-digit case, by form-urlencoded spelling, or by where a string sits (path vs query vs fragment)
+  let near_base = ["did:m:a", "did:m:a/files", "did:m:a?service=files", "did:m:a#files", "did:m:a/p?k=v&x=y#f", "did:m:a?k", "did:m:a/a+b?a+b#a+b"];
+  let mut near: Vec<String> = vec![];
+  for b in near_base {
+    near.push(b.to_string());
+    near.push(b.replace("files", "%66iles"));
+    near.push(b.replace("files", "%46iles"));
+    near.push(b.replace("files", "Files"));
+    near.push(b.replace('+', "%20"));
+    near.push(b.replace('+', "%2B"));
+    near.push(b.replace("?k", "?k="));
+    near.push(format!("{}&", b));
+    near.push(b.replace("k=v&x=y", "x=y&k=v"));
+    near.push(b.replace("did:m:a", "did:m:A"));
+    near.push(b.replace("did:m:a", "did:m:%61"));
+    near.push(b.replace('?', "#"));
+    near.push(b.replace('/', "?"));
+  }
+  near.sort();
+  near.dedup();
+  for a in &near {
+    for b in &near {
+      writeln!(out, "C10 cmp {} {}", hex(a.as_bytes()), hex(b.as_bytes())).unwrap();
     }
   }
   // Eq / Ord / Hash on pairs
